@@ -87,7 +87,7 @@ class Gen:
         if k == "Perm":
             p = list(range(m))
             r.shuffle(p)
-            return dict(k="Perm", dt=dt, p=p)
+            return dict(k="Perm", dt=dt, p=p, neg=[r.random() < 0.4 for _ in p] if r.random() < 0.35 else None)
         if k == "Tridiag":
             return dict(k="Tridiag", dt=dt, al=[self.val(dt) for _ in range(m - 1)], be=[self.val(dt) for _ in range(m)],
                         ga=[self.val(dt) for _ in range(m - 1)])
@@ -232,7 +232,7 @@ def rooted(gen, kind, m=None, n=None, cplx=False, depth=1):
     if kind == "Perm":
         p = list(range(m))
         r.shuffle(p)
-        return dict(k="Perm", dt=dt, p=p)
+        return dict(k="Perm", dt=dt, p=p, neg=[r.random() < 0.4 for _ in p] if r.random() < 0.35 else None)
     if kind == "Tridiag":
         return dict(k="Tridiag", dt=dt, al=[gen.val(dt) for _ in range(m - 1)], be=[gen.val(dt) for _ in range(m)], ga=[gen.val(dt) for _ in range(m - 1)])
     if kind == "House":
@@ -460,7 +460,9 @@ def build(t):
         v = c(t["c"])
         return ops.ScalarMul(v if t["dt"] in CPLX else v.real, (t["n"], t["n"]), npdt(t["dt"]))
     if k == "Perm":
-        return ops.Permutation(np.array(t["p"], dtype=np.int64), npdt(t["dt"]))
+        # "neg": the same permutation spelled with negative (wrap-around) entries, valid numpy fancy indices
+        pv = [pi - len(t["p"]) if (t.get("neg") and t["neg"][i]) else pi for i, pi in enumerate(t["p"])]
+        return ops.Permutation(np.array(pv, dtype=np.int64), npdt(t["dt"]))
     if k == "Tridiag":
         return ops.Tridiagonal(vec(t["al"], t["dt"]), vec(t["be"], t["dt"]), vec(t["ga"], t["dt"]))
     if k == "House":
